@@ -508,6 +508,6 @@ func init() {
 		Rule:        "exhaustive enumeration, no sampling. Encoders: every unsigned value below 2^24, every 2^k+d (k<=64, |d|<=3), every value with at most two set bits, x*2^s (x<2^12), their zig-zag / negated images for the signed codec, and as float bit patterns and as float values (plus NaN, infinities, subnormals, 2^53+-2, negatives) - each through encoder, size function, decoder with three trailing paddings, and every strict prefix. Decoders: EVERY byte string of length <= 3 (<= 4 in the thorough tier), every string of length <= 8 (10) over {00,01,7f,80,81,ff}, and strings of length 9..12 of continuation bytes with one free byte at each position - each through the four variable-length decoders and compared with independent readers written from the documentation (value, bytes consumed, io.EOF with the slice untouched for incomplete strings, at most 9 bytes read, int32 range check). All 256 flag bytes. A case is non-trivial when its encoding is longer than one byte; distinct_nontrivial counts them",
 		Assumptions: []string{"the independent readers are a faithful reading of the comments in encoding/encoding.go"},
 		Shards:      codecShards,
-		ShardBudget: budget(80*time.Second, 14*time.Minute),
+		ShardBudget: budget(240*time.Second, 14*time.Minute),
 	})
 }
